@@ -103,6 +103,7 @@ class Recorder:
 
     def __init__(self):
         self.iv, self.ov, self.llm = [], [], []
+        self.act = ""
         self.obs = []
         self.llm_i = 0
         self.mode = ""
@@ -184,6 +185,14 @@ define flow question
   user ask question
   bot answer question
 
+define user ask rag
+  "a rag question"
+
+define flow rag
+  user ask rag
+  $answer = execute rag
+  bot $answer
+
 define bot express greeting
   "{predef}"
 """
@@ -243,10 +252,18 @@ def build_v1(n_in, n_out, mode, exc):
             return _verdict_value(rec.ov[k] if k < len(rec.ov) else "a")
         return act
 
+    # a custom (LLM-calling) action whose result is uttered with `bot $answer`, as in
+    # examples/configs/rag/custom_rag_output_rails; a system action like the library's
+    @action(name="rag", is_system_action=True)
+    async def rag():
+        rec.obs.append(["A", "rag", rec.act])
+        return rec.act
+
     for k in range(n_in):
         app.register_action(mk_in(k), f"in_rail_{k}")
     for k in range(n_out):
         app.register_action(mk_out(k), f"out_rail_{k}")
+    app.register_action(rag, "rag")
     return app, rec
 
 
@@ -272,6 +289,7 @@ def run_v1(app, rec, case):
     turns_out = []
     for turn in case["turns"]:
         rec.iv, rec.ov, rec.llm = turn["iv"], turn["ov"], turn.get("llm", [])
+        rec.act = turn.get("act", "")
         rec.obs, rec.llm_i = [], 0
         history.append({"role": "user", "content": turn["user"]})
         app.runtime._verif_last_events = None
@@ -662,6 +680,8 @@ def coq_reply(reply):
 
 
 def coq_obs(o):
+    if o[0] == "A":
+        return None   # the custom action call itself is not part of the model's trace
     if o[0] in ("I", "O"):
         side = "SIn" if o[0] == "I" else "SOut"
         rid = o[1] + (100 if o[0] == "O" else 0)
@@ -677,7 +697,7 @@ def coq_exp(ver, t):
     ctx = t["ctx"]
     ti = coq_opt_rail(ctx.get("triggered_input_rail")) if ver == "v1" else "None"
     to = coq_opt_rail(ctx.get("triggered_output_rail")) if ver == "v1" else "None"
-    return ("(mkExp " + C.coq_list([coq_obs(o) for o in t["obs"]]) + " " + coq_reply(t["reply"]) + " "
+    return ("(mkExp " + C.coq_list([x for x in (coq_obs(o) for o in t["obs"]) if x is not None]) + " " + coq_reply(t["reply"]) + " "
             + C.coq_bool(bool(t["flag"])) + " " + coq_opt_str(ctx.get("user_message")) + " "
             + coq_opt_str(ctx.get("bot_message")) + " " + ti + " " + to + " "
             + C.coq_list([C.coq_string(str(x)) for x in t.get("utter", [])]) + ")")
@@ -688,7 +708,8 @@ def coq_turns(case):
     for t in case["turns"]:
         ts.append("(mkTC " + C.coq_string(t["user"]) + " " + C.coq_list([coq_verdict(v) for v in t["iv"]]) + " "
                   + C.coq_list([coq_verdict(v) for v in t["ov"]]) + " "
-                  + C.coq_list([C.coq_string(x) for x in t.get("llm", [])]) + ")")
+                  + C.coq_list([C.coq_string(x) for x in t.get("llm", [])]) + " "
+                  + C.coq_string(t.get("act", "")) + ")")
     return C.coq_list(ts)
 
 
@@ -719,6 +740,8 @@ def llm_script(mode, ver, t, kind, salt=""):
         return [f"L{t}x0{salt}z"]
     if kind == "p":
         return ["  express greeting"]
+    if kind == "v":
+        return ["  ask rag"]
     if kind == "f":
         return ["  ask question", f'  "L{t}x1{salt}z"']
     return ["  ask something else", "bot respond something", f'  "L{t}x2{salt}z"']
@@ -727,9 +750,92 @@ def llm_script(mode, ver, t, kind, salt=""):
 def mk_turn(ver, mode, t, iv, ov, kind="", salt=""):
     def vv(side, k, v):
         return ["w", f"R{side}{t}x{k}{salt}z"] if v == "w" else v
-    return {"user": f"U{t}{salt}z", "iv": [vv("I", k, v) for k, v in enumerate(iv)],
+    turn = {"user": f"U{t}{salt}z", "iv": [vv("I", k, v) for k, v in enumerate(iv)],
             "ov": [vv("O", k, v) for k, v in enumerate(ov)], "kind": kind,
             "llm": llm_script(mode, ver, t, kind, salt)}
+    if kind == "v":
+        turn["act"] = f"L{t}x9{salt}z"   # text produced by the custom action (an LLM-marker: provenance FromLLM)
+    return turn
+
+
+def bot_text_of(turn):
+    """The marker text of the LLM-/action-generated bot message of a scripted turn (or None)."""
+    if turn.get("act"):
+        return turn["act"]
+    for comp in turn.get("llm", []):
+        m = re.search(r"L[0-9]+x[0-9]+(?:y[0-9a-f]+)?z", comp)
+        if m:
+            return m.group(0)
+    return None
+
+
+def set_bot_text(turn, text):
+    old = bot_text_of(turn)
+    if old is None:
+        return
+    if turn.get("act"):
+        turn["act"] = text
+    turn["llm"] = [c.replace(old, text) for c in turn["llm"]]
+
+
+def reuse_cases(focus, rng, n_per_config=14):
+    """Conversations that REUSE texts: the same user text in consecutive / non-consecutive turns
+    (after accept, after reject, after rewrite), the same LLM text in two turns, a user text equal
+    to an earlier bot text or to the target of an earlier rewrite.  Nothing in the property
+    depends on texts being new, so every turn's rail calls must be those of a fresh conversation."""
+    cases = []
+    configs = [("v1", m, e) for m, e in V1_CONFIGS] + [("v2", "", False), ("v2", "", True)]
+    for ver, mode, exc in configs:
+        alpha = ["a", "r", "w"] if ver == "v1" else ["a", "r"]
+        for i in range(n_per_config):
+            n_in, n_out = rng.choice([(2, 1), (1, 2), (3, 1), (1, 1)])
+            T = 4
+            turns = []
+            for t in range(T):
+                iv = rand_vec(rng, n_in, alpha, 0.55)
+                ov = rand_vec(rng, n_out, alpha, 0.6)
+                kind = rng.choice(["p", "f", "n", "f", "v"]) if mode == "dialog" else ""
+                turns.append(mk_turn(ver, mode, t, iv, ov, kind))
+            # the systematic patterns first, then random reuse
+            pat = i % 7
+            if pat == 0:      # retry of a just-rejected message; then the same text accepted twice
+                turns[0]["iv"] = ["a"] * (n_in - 1) + ["r"]
+                turns[1]["user"] = turns[0]["user"]
+                turns[1]["iv"] = ["a"] * (n_in - 1) + ["r"]
+                turns[2]["user"] = turns[0]["user"]
+                turns[2]["iv"] = ["a"] * n_in
+                turns[3]["user"] = turns[0]["user"]
+                turns[3]["iv"] = ["r"] + ["a"] * (n_in - 1)
+            elif pat == 1:    # accepted, then the same text again with a rejecting verdict
+                turns[0]["iv"] = ["a"] * n_in
+                turns[1]["user"] = turns[0]["user"]
+                turns[1]["iv"] = ["r"] + ["a"] * (n_in - 1)
+                turns[3]["user"] = turns[0]["user"]
+            elif pat == 2:    # non-consecutive repetition
+                turns[2]["user"] = turns[0]["user"]
+                turns[3]["user"] = turns[1]["user"]
+            elif pat == 3:    # the same LLM text in two turns, blocked once and passed once
+                for t in (1, 2, 3):
+                    set_bot_text(turns[t], bot_text_of(turns[0]) or "L0x0z")
+                turns[1]["ov"] = ["r"] + ["a"] * (n_out - 1)
+                turns[2]["ov"] = ["a"] * n_out
+            elif pat == 4:    # user text equal to an earlier bot text
+                bt = bot_text_of(turns[0])
+                if bt:
+                    turns[1]["user"] = bt
+                    turns[3]["user"] = bt
+            elif pat == 5 and ver == "v1":   # a rewrite to a text that equals another turn's user text; then that text itself
+                turns[0]["iv"] = [["w", turns[1]["user"]]] + ["a"] * (n_in - 1)
+                turns[2]["user"] = turns[0]["user"]
+                turns[2]["iv"] = [["w", turns[1]["user"]]] + ["a"] * (n_in - 1)
+            else:             # random reuse
+                for t in range(1, T):
+                    if rng.random() < 0.6:
+                        turns[t]["user"] = turns[rng.randrange(t)]["user"]
+                    if rng.random() < 0.3:
+                        set_bot_text(turns[t], bot_text_of(turns[rng.randrange(t)]) or f"L{t}x0z")
+            cases.append({"ver": ver, "mode": mode, "exc": exc, "n_in": n_in, "n_out": n_out, "turns": turns})
+    return cases
 
 
 def all_vectors(n, alphabet):
@@ -767,9 +873,9 @@ def gen_cases(focus, tier, rng):
                 else:
                     ov = list(vec)
                     iv = ["a"] * n_in if rng.random() < 0.8 else iv
-            kind = rng.choice(["p", "f", "n", "f"]) if mode == "dialog" else ""
+            kind = rng.choice(["p", "f", "n", "v"]) if mode == "dialog" else ""
             if mode == "dialog" and focus == "out" and t == p:
-                kind = rng.choice(["f", "n", "f", "p"])
+                kind = rng.choice(["f", "n", "v", "v", "p"])
             turns.append(mk_turn(ver, mode, t, iv, ov, kind, salt))
         return {"ver": ver, "mode": mode, "exc": exc, "n_in": n_in, "n_out": n_out, "turns": turns}
 
@@ -785,6 +891,7 @@ def gen_cases(focus, tier, rng):
             for p in range(T):
                 for vec in all_vectors(n, ["a", "r"]):
                     cases.append(conv("v2", "", exc, n_in, n_out, p, vec, T))
+    cases += reuse_cases(focus, rng, 14 if tier == "quick" else 70)
     if tier == "thorough":
         for i in range(1500):
             ver = rng.choice(["v1", "v1", "v2"])
